@@ -15,15 +15,15 @@ META = {
     "engine": "data",
     "text": "IntrospectEndpoint.tla transcribes the endpoint as a guard chain (route, caller allowlist, body, JWS shape, "
             "resolver outcome) into a total decision table with set-valued admissible statuses where the statement is "
-            "silent.  TLC enumerates the complete space mode x 9 caller classes x 15 body classes x 13 resolver "
-            "behaviours (ttl 300/1/huge/0.5/0/-1/-0.0/NaN/inf/-inf, None, unavailable, other exception) and checks the "
+            "silent.  TLC enumerates the complete space mode x 9 caller classes x 15 body classes x 16 resolver "
+            "behaviours (ttl 300/1/huge/0.5/0/-1/-0.0/NaN/inf/-inf/True/'300'/None, None, unavailable, other exception) and checks the "
             "table-sanity invariants; every row is concretised into several real POSTs against real make_wsgi_app "
             "workers (in-process WSGI) with a scripted resolver and authenticator; TLC judges every observed "
             "(status, 404 byte-identity, resolver calls, Retry-After, key set, ttl class, strict-JSON, leak) with "
             "IntrospectEndpoint!Conforms.",
     "note": "Trusted: the transcription of the statement into Admissible(); the projection of a response onto the "
             "observation record (Python computes byte equality with the reference 404, strict-JSON parse and "
-            "substring search for the credential).  Size caps are read from the module's own constants.  The rate "
+            "substring search for the credential and for any 10 consecutive characters of it).  Size caps are read from the module's own constants.  The rate "
             "limiter (429, not part of the statement) is configured out of the way.  HTTP legs are in-process WSGI.",
 }
 
